@@ -36,6 +36,18 @@ class TorchCalls(TorchOps):
             return PartialV(args[0], tuple(args[1:]), tuple(kwargs.items()))
         if name == "itertools.accumulate":
             return self.accumulate(args[0], node)
+        if name == "itertools.pairwise":
+            lst = self.to_list(args[0], "list", node)
+            if isinstance(lst, ListV) and lst.items is not None:
+                return ListV(items=tuple(ListV(items=(a, b), kind="tuple") for a, b in zip(lst.items, lst.items[1:])))
+            return self.unk("pairwise of abstract sequence", node)
+        if name == "itertools.combinations":
+            lst = self.to_list(args[0], "list", node)
+            r = self.const_int(args[1]) if len(args) > 1 else None
+            if isinstance(lst, ListV) and lst.items is not None and r == 2:
+                import itertools as _it
+                return ListV(items=tuple(ListV(items=c, kind="tuple") for c in _it.combinations(lst.items, 2)))
+            return self.unk("combinations", node)
         if name in ("math.ceil", "math.floor"):
             t = tv_of(args[0])
             if t is None:
@@ -197,6 +209,8 @@ class TorchCalls(TorchOps):
             return TV(kind="pybool", dtype="Bool")
         if isinstance(v, ObjV) and isinstance(cls, ClassV):
             return Const(cls.cls in v.cls.mro)
+        if isinstance(v, (DictV, ListV, SetV, TV, Const)) and isinstance(cls, ClassV):
+            return FALSE
         if isinstance(v, ObjV) and isinstance(cls, ExtV):
             return Const(cls.name in v.cls.external_bases or any(b.split(".")[-1] == cls.name.split(".")[-1] for b in v.cls.external_bases))
         if isinstance(cls, ExtV) and cls.name.endswith("Tensor"):
